@@ -67,11 +67,13 @@ def run_validation(groups, env, soll_is_required, entry="deep", text_preset=None
     """('ok', observation) | ('exc', exception class name)"""
 
     def call():
-        ahb = build_ahb(groups)
+        ahb = build_ahb(groups) if entry != "segment_root" else None
         if entry == "deep":
             coro = validate_deep_anwendungshandbuch(ahb, soll_is_required)
         elif entry == "segment_level":
             coro = validate_segment_level(ahb.lines[0], soll_is_required)
+        elif entry == "segment_root":
+            coro = validate_segment_level(build_segment(groups[0]), soll_is_required)
         elif entry == "segment":
             coro = validate_segment(ahb.lines[0].segments[0], soll_is_required=soll_is_required)
         else:
